@@ -30,6 +30,10 @@ def cleanUpState : M Unit := do
       | some px => if px.childFlowUids.contains u then modInstX p fun y => { y with childFlowUids := y.childFlowUids.filter (· ≠ u) }
       | none => pure ()
     | none => pure ()
+    -- REPAIRED behaviour (fixes/C09-cleanup-other-activators.diff; on the unpatched tree this is the region of the open finding
+    -- `dangling-child`, variant "other activator"): a flow activated from several flows is listed as a child by each of them,
+    -- not only by its parent; every flow's child list drops the removed flow
+    modifyRest fun r => { r with fx := r.fx.map fun (fu, y) => (fu, { y with childFlowUids := y.childFlowUids.filter (· ≠ u) }) }
     -- REPAIRED behaviour (same diff; region of the open finding `dangling-scope-flow`): open scopes drop the removed flow
     modifyRest fun r => { r with fx := r.fx.map fun (fu, y) =>
       (fu, { y with scopes := y.scopes.map fun (n, (fl, al)) => (n, (fl.filter (· ≠ u), al)) }) }
